@@ -1,6 +1,6 @@
 (* CoreGrammar.v — model for property C12 (every input of the documented core grammar is accepted).
 
-   Three things live here, no proofs:
+   Four things live here, no proofs:
    1. a generic context-free derivation relation [Derives G nt ts] over a production table
       [G : list (string * list string)] (the tables themselves are generated from the SLY parser
       classes into Gen/Grammar.v);
@@ -11,13 +11,19 @@
       material cards (ZAID/fraction pairs with library, keyword parameters) and thermal cards — each
       with every place where padding (blanks, line breaks, `$` comments, `c` comment lines, `&`) may
       stand; and [gen : shape -> list token], a token being (SLY token class, text);
-   3. the wire entry [run_CoreGrammar]: a shape written as a postfix program is rendered to its tokens.
+   3. the LR driver [lr_run]: sly.yacc.Parser.parse's table-driven loop (shift / reduce / goto, defaulted
+      states, first error = rejection as MCNP_Parser.parse does) run on the action/goto tables SLY built,
+      which the translator writes to Gen/LRTables.v — the automaton after SLY's conflict resolution;
+   4. the wire entry [run_CoreGrammar]: a shape written as a postfix program is rendered to its tokens,
+      and a token-class sequence is run through the LR driver of a named parser.
 
-   What is NOT modelled: the LALR(1) automaton SLY builds from the productions (its conflict
-   resolution), the lexer's regular expressions (the class of each token is what [gen] *claims*; the
-   harness compares it with the real lexer on every case), the semantic constructors run after parsing. *)
+   What is NOT modelled: the lexer's regular expressions (the class of each token is what [gen] *claims*,
+   except the class of a data-card name, which is computed from the generated keyword/particle tables as
+   ParticleLexer.TEXT does; the harness compares every token with the real lexer on every case), and the
+   semantic actions / constructors that run during and after parsing. *)
 From Coq Require Import List String Ascii ZArith Bool Lia.
 From MPV Require Import Model.Wire.
+From MPV Require Gen.Tables Gen.Grammar Gen.LRTables.
 Import ListNotations.
 Open Scope string_scope.
 
@@ -91,34 +97,46 @@ Definition num_tok (r : real) : token := (real_class r, real_text r).
 Fixpoint spaces (n : nat) : string := match n with O => "" | S k => String " "%char (spaces k) end.
 Definition nl : string := String (ascii_of_nat 10) "".
 
-(* padding: each constructor is one self-contained stretch of blanks/comments/line breaks *)
+(* padding: each constructor is one self-contained stretch of blanks/comments/line breaks.
+   A comment line is (indent <= 4, body): [Some t] is "c t", [None] is a bare "c" (the lexer's COMMENT
+   token then contains the line break: r"C\n"). *)
+Definition cline := (nat * option string)%type.
 Inductive pad :=
 | PBlank (n : nat)                              (* n+1 blanks *)
+| PTab (n : nat)                                (* n+1 tabs *)
 | PBreak (n m : nat)                            (* n blanks, line break, 5+m blanks *)
 | PDollar (n : nat) (txt : string) (m : nat)    (* n+1 blanks, $txt, line break, 5+m blanks *)
 | PDollarEnd (n : nat) (txt : string)           (* n+1 blanks, $txt  (end of the card) *)
-| PComment (n : nat) (cs : list string) (m : nat) (* n blanks, line break, comment lines, 5+m blanks *)
-| PAmp (n m : nat).                             (* n+1 blanks, &, line break, m+1 blanks *)
+| PComment (n : nat) (cs : list cline) (m : nat) (* n blanks, line break, comment lines, 5+m blanks *)
+| PAmp (n m : nat).                             (* n+1 blanks, &, line break, m blanks *)
 
-Fixpoint comment_toks (cs : list string) (last : string) : list token :=
+Fixpoint tabs (n : nat) : string := match n with O => "" | S k => String (ascii_of_nat 9) (tabs k) end.
+Definition sp_tok (s : string) : list token :=
+  match s with EmptyString => [] | _ => [("SPACE", s)] end.
+Definition cline_tok (b : option string) : token :=
+  match b with Some t => ("COMMENT", "c " ++ t) | None => ("COMMENT", "c" ++ nl) end.
+Definition cline_next (b : option string) : string := match b with Some _ => nl | None => "" end.
+(* [pre] = the blanks/line break still to be emitted in front of the next comment line *)
+Fixpoint comment_rest (pre : string) (cs : list cline) (last : string) : list token :=
   match cs with
-  | [] => []
-  | [c] => [("COMMENT", "c " ++ c); ("SPACE", nl ++ last)]
-  | c :: r => ("COMMENT", "c " ++ c) :: ("SPACE", nl) :: comment_toks r last
+  | [] => sp_tok (pre ++ last)
+  | (ind, b) :: r => sp_tok (pre ++ spaces ind) ++ cline_tok b :: comment_rest (cline_next b) r last
   end.
 
 Definition pad_toks (p : pad) : list token :=
   match p with
   | PBlank n => [("SPACE", spaces (S n))]
+  | PTab n => [("SPACE", tabs (S n))]
   | PBreak n m => [("SPACE", spaces n ++ nl ++ spaces (5 + m))]
   | PDollar n txt m => [("SPACE", spaces (S n)); ("DOLLAR_COMMENT", "$" ++ txt); ("SPACE", nl ++ spaces (5 + m))]
   | PDollarEnd n txt => [("SPACE", spaces (S n)); ("DOLLAR_COMMENT", "$" ++ txt)]
   | PComment n cs m =>
       match cs with
       | [] => [("SPACE", spaces n ++ nl ++ spaces (5 + m))]
-      | _ => ("SPACE", spaces n ++ nl) :: comment_toks cs (spaces (5 + m))
+      | (ind, b) :: r => ("SPACE", spaces n ++ nl ++ spaces ind) :: cline_tok b
+                         :: comment_rest (cline_next b) r (spaces (5 + m))
       end
-  | PAmp n m => [("SPACE", spaces (S n)); ("&", "&"); ("SPACE", nl ++ spaces (S m))]
+  | PAmp n m => [("SPACE", spaces (S n)); ("&", "&"); ("SPACE", nl ++ spaces m)]
   end.
 Definition opad_toks (p : option pad) : list token := match p with Some q => pad_toks q | None => [] end.
 
@@ -183,7 +201,7 @@ Inductive nitem :=
 | NNum (r : real)
 | NJump (n : option nat)
 | NRepeat (n : option nat)
-| NMul (n : nat)
+| NMul (x : real)
 | NInterp (n : option nat) (p : pad) (w : real)
 | NLog (n : option nat) (p : pad) (w : real).
 Inductive nlist :=
@@ -196,7 +214,7 @@ Definition nitem_toks (i : nitem) : list token :=
   | NNum r => [num_tok r]
   | NJump n => [((match n with Some _ => "NUM_JUMP" | None => "JUMP" end), onat_text n ++ "j")]
   | NRepeat n => [((match n with Some _ => "NUM_REPEAT" | None => "REPEAT" end), onat_text n ++ "r")]
-  | NMul n => [("NUM_MULTIPLY", show_nat n ++ "m")]
+  | NMul x => [("NUM_MULTIPLY", real_text x ++ "m")]
   | NInterp n p w => [((match n with Some _ => "NUM_INTERPOLATE" | None => "INTERPOLATE" end), onat_text n ++ "i")]
                      ++ pad_toks p ++ [num_tok w]
   | NLog n p w => [((match n with Some _ => "NUM_LOG_INTERPOLATE" | None => "LOG_INTERPOLATE" end), onat_text n ++ "ilog")]
@@ -209,8 +227,14 @@ Fixpoint nlist_toks (l : nlist) : list token :=
   end.
 
 Definition is_start (i : nitem) : bool := match i with NNum _ | NJump _ => true | _ => false end.
+(* an unsigned integer spelling: the only factors of xM that the lexer turns into one NUM_MULTIPLY token *)
+Definition plain_int (x : real) : bool :=
+  (match r_sign x with SNone => true | _ => false end)
+  && negb (Nat.eqb (List.length (r_int x)) 0)
+  && (match r_frac x with None => true | _ => false end)
+  && (match r_exp x with None => true | _ => false end).
 Definition nitem_ok (i : nitem) : bool :=
-  match i with NInterp _ _ w | NLog _ _ w => nonzero w | _ => true end.
+  match i with NInterp _ _ w | NLog _ _ w => nonzero w | NMul x => plain_int x | _ => true end.
 Fixpoint nlist_ok (l : nlist) : bool :=
   match l with
   | NLOne i _ => is_start i && nitem_ok i
@@ -222,24 +246,27 @@ Inductive cvseq :=
 | CVList (l : nlist)
 | CVRange (s : cvseq) (b : real) (p : option pad)          (* s ":" b pad *)
 | CVNum (s : cvseq) (i : nitem) (p : option pad)           (* s followed by a number or a jump *)
-| CVGroup (s : cvseq) (inner : nlist) (p : option pad)     (* s "(" inner ")" pad *)
-| CVParen (inner : nlist) (p : option pad).                (* "(" inner ")" pad *)
+| CVGroup (s : cvseq) (pl : option pad) (inner : nlist) (p : option pad)   (* s "(" [pad] inner ")" pad *)
+| CVParen (pl : option pad) (inner : nlist) (p : option pad).              (* "(" [pad] inner ")" pad *)
 
 Fixpoint cvseq_toks (s : cvseq) : list token :=
   match s with
   | CVList l => nlist_toks l
   | CVRange s' b p => cvseq_toks s' ++ [(":", ":")] ++ [num_tok b] ++ opad_toks p
   | CVNum s' i p => cvseq_toks s' ++ nitem_toks i ++ opad_toks p
-  | CVGroup s' inner p => cvseq_toks s' ++ [("(", "(")] ++ nlist_toks inner ++ [(")", ")")] ++ opad_toks p
-  | CVParen inner p => [("(", "(")] ++ nlist_toks inner ++ [(")", ")")] ++ opad_toks p
+  | CVGroup s' pl inner p =>
+      cvseq_toks s' ++ [("(", "(")] ++ opad_toks pl ++ nlist_toks inner ++ [(")", ")")] ++ opad_toks p
+  | CVParen pl inner p => [("(", "(")] ++ opad_toks pl ++ nlist_toks inner ++ [(")", ")")] ++ opad_toks p
   end.
+(* CellParser has no production for padding directly after the "(" of a FILL/TRCL value *)
+Definition no_pad (p : option pad) : bool := match p with None => true | Some _ => false end.
 Fixpoint cvseq_ok (s : cvseq) : bool :=
   match s with
   | CVList l => nlist_ok l
   | CVRange s' _ _ => cvseq_ok s'
   | CVNum s' i _ => cvseq_ok s' && is_start i
-  | CVGroup s' inner _ => cvseq_ok s' && nlist_ok inner
-  | CVParen inner _ => nlist_ok inner
+  | CVGroup s' pl inner _ => cvseq_ok s' && nlist_ok inner && no_pad pl
+  | CVParen pl inner _ => nlist_ok inner && no_pad pl
   end.
 
 Inductive sepshape := SepPad (p : pad) | SepEq (pl pr : option pad).
@@ -322,35 +349,136 @@ Definition surf_shape_b (s : surf) : bool :=
   && mem_str (s_mn s) core_mnemonics && nlist_ok (s_data s).
 Definition surf_shape (s : surf) : Prop := surf_shape_b s = true.
 
-(* ---- data cards that are numeric lists *)
-Inductive pclass := PCText | PCKeyword | PCParticle.
-Definition pclass_name (c : pclass) : string :=
-  match c with PCText => "TEXT" | PCKeyword => "KEYWORD" | PCParticle => "PARTICLE" end.
+(* ---- the class of a word in a data input or a cell: ParticleLexer.TEXT (tokens.py) — a word that is in
+        _KEYWORDS is a KEYWORD, else one that is in _PARTICLES is a PARTICLE, else TEXT; SurfaceLexer.TEXT:
+        a word that is in _SURFACE_TYPES is a SURFACE_TYPE.  The tables are the generated ones. *)
+Definition word_class (w : string) : string :=
+  if mem_str w Gen.Tables.keywords then "KEYWORD"
+  else if mem_str w Gen.Tables.particles then "PARTICLE" else "TEXT".
+Definition surface_word_class (w : string) : string :=
+  if mem_str w Gen.Tables.surface_types then "SURFACE_TYPE"
+  else if mem_str w Gen.Tables.keywords then "KEYWORD" else "TEXT".
+
+(* ---- classifier of a data input: [modifier] name [number] [: particles] *)
 Record dcls := mkDcls {
-  d_star : bool; d_prefix : string; d_pclass : pclass; d_num : option nat; d_parts : list (bool * string) }.
+  d_mod : option string; d_prefix : string; d_num : option nat; d_parts : list (bool * string) }.
 Definition dpart_tok (p : bool * string) : token :=
   ((if fst p then "PARTICLE_SPECIAL" else "PARTICLE"), snd p).
 Definition dcls_toks (d : dcls) : list token :=
-  (if d_star d then [("PARTICLE_SPECIAL", "*")] else [])
-  ++ [(pclass_name (d_pclass d), d_prefix d)]
+  (match d_mod d with Some m => [("PARTICLE_SPECIAL", m)] | None => [] end)
+  ++ [(word_class (d_prefix d), d_prefix d)]
   ++ (match d_num d with Some n => [("NUMBER", show_nat n)] | None => [] end)
   ++ parts_toks true (map dpart_tok (d_parts d)).
 Definition dpart_ok (p : bool * string) : bool :=
   if fst p then mem_str (snd p) core_special_particles else mem_str (snd p) core_letter_particles.
-Definition dcls_ok (d : dcls) : bool := nat_nonzero (d_num d) && forallb dpart_ok (d_parts d).
+(* the only modifier the data lexer classifies as one is "*" ("+" is swallowed by FILE_PATH) *)
+Definition dmod_ok (m : option string) : bool :=
+  match m with None => true | Some s => String.eqb s "*" end.
+Definition dcls_ok (d : dcls) : bool :=
+  dmod_ok (d_mod d) && nat_nonzero (d_num d) && forallb dpart_ok (d_parts d).
+
+(* ---- generic data cards: classifier [KEYWORD] [data] { key = numbers } *)
+Definition core_dist_options : list string := ["h"; "l"; "a"; "s"; "d"; "c"; "v"].
+Definition ptok := (bool * string * option pad)%type.     (* (special?, designator, padding) *)
+Definition ptok_toks (p : ptok) : list token := dpart_tok (fst p) :: opad_toks (snd p).
+Inductive ddata :=
+| DNone
+| DNums (l : nlist)                                   (* numbers with shortcuts *)
+| DParts (p : ptok) (ps : list ptok)                  (* MODE n p e *)
+| DOptNums (o : string) (p : pad) (l : nlist).        (* SI1 H 0 1 2: option letter, numbers *)
+Definition ddata_toks (d : ddata) : list token :=
+  match d with
+  | DNone => []
+  | DNums l => nlist_toks l
+  | DParts p ps => ptok_toks p ++ flat_map ptok_toks ps
+  | DOptNums o p l => ("PARTICLE", o) :: pad_toks p ++ nlist_toks l
+  end.
+Definition ddata_ok (d : ddata) : bool :=
+  match d with
+  | DNone => true
+  | DNums l => nlist_ok l
+  | DParts p ps => forallb (fun q => dpart_ok (fst q)) (p :: ps)
+  | DOptNums o _ l => mem_str o core_dist_options && nlist_ok l
+  end.
+Record dparam := mkDParam { dp_key : string; dp_sep : sepshape; dp_val : nlist }.
+Definition dparam_toks (p : dparam) : list token :=
+  (word_class (dp_key p), dp_key p) :: sep_toks (dp_sep p) ++ nlist_toks (dp_val p).
+Definition dparam_ok (p : dparam) : bool := nlist_ok (dp_val p).
 
 Record datacard := mkData {
   dc_lead : option pad; dc_cls : dcls; dc_pad : option pad; dc_kw : option (string * pad);
-  dc_data : option nlist }.
+  dc_data : ddata; dc_params : list dparam }.
 Definition data_toks (d : datacard) : list token :=
   opad_toks (dc_lead d) ++ dcls_toks (dc_cls d) ++ opad_toks (dc_pad d)
   ++ (match dc_kw d with Some (k, p) => ("KEYWORD", k) :: pad_toks p | None => [] end)
-  ++ (match dc_data d with Some l => nlist_toks l | None => [] end).
+  ++ ddata_toks (dc_data d) ++ flat_map dparam_toks (dc_params d).
 Definition data_shape_b (d : datacard) : bool :=
-  dcls_ok (dc_cls d) && (match dc_data d with Some l => nlist_ok l | None => true end).
+  dcls_ok (dc_cls d) && ddata_ok (dc_data d) && forallb dparam_ok (dc_params d).
 Definition data_shape (d : datacard) : Prop := data_shape_b d = true.
 
-(* ---- material cards: every ZAID with a library; keyword parameters with a number list or a library *)
+(* ---- tally cards F, FM (TallyParser) and FS (TallySegmentParser): bins, groups of bins in parentheses, T *)
+Inductive titem :=
+| TINums (l : nlist)
+| TIGroup (pl : option pad) (l : nlist) (pr : option pad).      (* "(" [pad] numbers ")" [pad] *)
+Definition titem_toks (t : titem) : list token :=
+  match t with
+  | TINums l => nlist_toks l
+  | TIGroup pl l pr => [("(", "(")] ++ opad_toks pl ++ nlist_toks l ++ [(")", ")")] ++ opad_toks pr
+  end.
+Definition titem_ok (t : titem) : bool := match t with TINums l | TIGroup _ l _ => nlist_ok l end.
+Definition titem_flat (t : titem) : bool := match t with TINums _ => true | TIGroup _ _ _ => false end.
+Record tallycard := mkTally {
+  tc_lead : option pad; tc_cls : dcls; tc_pad : option pad; tc_first : titem; tc_rest : list titem;
+  tc_end : option (string * option pad) }.
+Definition tend_toks (e : option (string * option pad)) : list token :=
+  match e with Some (t, p) => ("PARTICLE", t) :: opad_toks p | None => [] end.
+Definition tally_toks (t : tallycard) : list token :=
+  opad_toks (tc_lead t) ++ dcls_toks (tc_cls t) ++ opad_toks (tc_pad t)
+  ++ titem_toks (tc_first t) ++ flat_map titem_toks (tc_rest t) ++ tend_toks (tc_end t).
+Definition tally_shape_b (t : tallycard) : bool :=
+  dcls_ok (tc_cls t) && forallb titem_ok (tc_first t :: tc_rest t).
+Definition tally_shape (t : tallycard) : Prop := tally_shape_b t = true.
+(* FS: no groups *)
+Definition tallyseg_shape_b (t : tallycard) : bool :=
+  tally_shape_b t && forallb titem_flat (tc_first t :: tc_rest t).
+Definition tallyseg_shape (t : tallycard) : Prop := tallyseg_shape_b t = true.
+
+(* ---- SDEF (ParamOnlyDataParser): keyword = numbers | particle | distribution Dn *)
+Definition core_sdef_keys : list string :=
+  ["cel"; "sur"; "erg"; "tme"; "dir"; "vec"; "nrm"; "pos"; "rad"; "ext"; "axs"; "x"; "y"; "z"; "ccc"; "ara";
+   "wgt"; "tr"; "eff"; "par"; "dat"; "loc"; "bem"; "bap"].
+Inductive sval :=
+| SVNums (l : nlist)
+| SVPart (p : ptok)                                         (* par=n *)
+| SVDist (n : real) (p : option pad).                       (* erg=d1: PARTICLE "d", number *)
+Definition sval_toks (v : sval) : list token :=
+  match v with
+  | SVNums l => nlist_toks l
+  | SVPart p => ptok_toks p
+  | SVDist n p => ("PARTICLE", "d") :: num_tok n :: opad_toks p
+  end.
+Definition sval_ok (v : sval) : bool :=
+  match v with SVNums l => nlist_ok l | SVPart p => dpart_ok (fst p) | SVDist _ _ => true end.
+Record sparam := mkSParam { sp_key : string; sp_sep : sepshape; sp_val : sval }.
+Definition sparam_toks (s : sparam) : list token :=
+  ("KEYWORD", sp_key s) :: sep_toks (sp_sep s) ++ sval_toks (sp_val s).
+Definition sparam_ok (s : sparam) : bool := mem_str (sp_key s) core_sdef_keys && sval_ok (sp_val s).
+Record sdefcard := mkSdef {
+  sd_lead : option pad; sd_cls : dcls; sd_pad : pad; sd_first : sparam; sd_rest : list sparam }.
+Definition sdef_toks (s : sdefcard) : list token :=
+  opad_toks (sd_lead s) ++ dcls_toks (sd_cls s) ++ pad_toks (sd_pad s)
+  ++ sparam_toks (sd_first s) ++ flat_map sparam_toks (sd_rest s).
+Definition sdef_shape_b (s : sdefcard) : bool :=
+  dcls_ok (sd_cls s) && forallb sparam_ok (sd_first s :: sd_rest s).
+Definition sdef_shape (s : sdefcard) : Prop := sdef_shape_b s = true.
+
+(* ---- FCn / SCn comment cards: the lexer makes the whole line one TALLY_COMMENT / SOURCE_COMMENT token *)
+Record textcard := mkText { x_lead : option pad; x_source : bool; x_text : string }.
+Definition text_toks (x : textcard) : list token :=
+  opad_toks (x_lead x) ++ [((if x_source x then "SOURCE_COMMENT" else "TALLY_COMMENT"), x_text x)].
+
+(* ---- material cards: ZAID/fraction pairs, the ZAID with or without a library; keyword parameters with a
+        number list or a library *)
 Inductive mparam :=
 | MPNum (key : string) (sep : sepshape) (v : nlist)
 | MPLib (key : string) (sep : sepshape) (lib : string) (p : option pad).
@@ -359,23 +487,34 @@ Definition mparam_toks (m : mparam) : list token :=
   | MPNum k s v => ("KEYWORD", k) :: sep_toks s ++ nlist_toks v
   | MPLib k s lib p => ("KEYWORD", k) :: sep_toks s ++ ("NUMBER_WORD", lib) :: opad_toks p
   end.
-Definition mparam_ok (m : mparam) : bool := match m with MPNum _ _ v => nlist_ok v | MPLib _ _ _ _ => true end.
 Definition core_mat_keys : list string :=
   ["gas"; "estep"; "hstep"; "nlib"; "plib"; "pnlib"; "elib"; "hlib"; "alib"; "slib"; "tlib"; "dlib";
    "cond"; "refi"; "refc"; "refs"].
+Definition mparam_key (m : mparam) : string := match m with MPNum k _ _ | MPLib k _ _ _ => k end.
+Definition mparam_ok (m : mparam) : bool :=
+  mem_str (mparam_key m) core_mat_keys && match m with MPNum _ _ v => nlist_ok v | MPLib _ _ _ _ => true end.
 
-Record zfrac := mkZ { z_zaid : string; z_pad : option pad; z_frac : real; z_trail : option pad }.
+(* [z_lib = true]: "1001.80c" (one ZAID token); [false]: "1001" (a NUMBER token) *)
+Record zfrac := mkZ { z_lib : bool; z_zaid : string; z_pad : option pad; z_frac : real; z_trail : option pad }.
 Definition zfrac_toks (z : zfrac) : list token :=
-  ("ZAID", z_zaid z) :: opad_toks (z_pad z) ++ num_tok (z_frac z) :: opad_toks (z_trail z).
+  ((if z_lib z then "ZAID" else "NUMBER"), z_zaid z) :: opad_toks (z_pad z)
+  ++ num_tok (z_frac z) :: opad_toks (z_trail z).
 Record matcard := mkMat {
   m_lead : option pad; m_num : nat; m_pad : option pad; m_first : zfrac; m_rest : list zfrac;
   m_params : list mparam }.
 Definition mat_card_toks (m : matcard) : list token :=
   opad_toks (m_lead m) ++ [("TEXT", "m"); ("NUMBER", show_nat (m_num m))] ++ opad_toks (m_pad m)
   ++ zfrac_toks (m_first m) ++ flat_map zfrac_toks (m_rest m) ++ flat_map mparam_toks (m_params m).
+(* MaterialParser: isotopes ::= ZAID pairs | plain numbers | plain numbers followed by ZAID pairs;
+   a plain pair after a ZAID pair has no production *)
+Fixpoint plain_first (seen_lib : bool) (l : list zfrac) : bool :=
+  match l with
+  | [] => true
+  | z :: r => if z_lib z then plain_first true r else negb seen_lib && plain_first false r
+  end.
 Definition matcard_shape_b (m : matcard) : bool :=
   negb (Nat.eqb (m_num m) 0) && forallb (fun z => nonzero (z_frac z)) (m_first m :: m_rest m)
-  && forallb mparam_ok (m_params m).
+  && plain_first false (m_first m :: m_rest m) && forallb mparam_ok (m_params m).
 Definition matcard_shape (m : matcard) : Prop := matcard_shape_b m = true.
 
 (* ---- thermal scattering cards *)
@@ -388,18 +527,34 @@ Definition mt_card_toks (m : mtcard) : list token :=
   ++ law_toks (t_first m) ++ flat_map law_toks (t_rest m).
 Definition mtcard_shape (m : mtcard) : Prop := t_num m <> 0.
 
-(* ---- a shape is one card of one of the five kinds *)
+(* ---- a shape is one card *)
 Inductive shape :=
-| ShCell (c : cell) | ShSurf (s : surf) | ShData (d : datacard) | ShMat (m : matcard) | ShMT (m : mtcard).
+| ShCell (c : cell) | ShSurf (s : surf) | ShData (d : datacard) | ShMat (m : matcard) | ShMT (m : mtcard)
+| ShTally (t : tallycard) | ShTallySeg (t : tallycard) | ShSdef (s : sdefcard) | ShText (x : textcard).
 Definition gen (sh : shape) : list token :=
   match sh with
   | ShCell c => cell_toks c | ShSurf s => surf_toks s | ShData d => data_toks d
   | ShMat m => mat_card_toks m | ShMT m => mt_card_toks m
+  | ShTally t => tally_toks t | ShTallySeg t => tally_toks t | ShSdef s => sdef_toks s
+  | ShText x => text_toks x
   end.
 Definition shape_ok_b (sh : shape) : bool :=
   match sh with
   | ShCell c => cell_shape_b c | ShSurf s => surf_shape_b s | ShData d => data_shape_b d
   | ShMat m => matcard_shape_b m | ShMT m => negb (Nat.eqb (t_num m) 0)
+  | ShTally t => tally_shape_b t | ShTallySeg t => tallyseg_shape_b t | ShSdef s => sdef_shape_b s
+  | ShText _ => true
+  end.
+(* the token classes of the classifier of a data input: what _ClassifierInput hands to ClassifierParser *)
+Definition classifier_toks (sh : shape) : list token :=
+  match sh with
+  | ShData d => opad_toks (dc_lead d) ++ dcls_toks (dc_cls d)
+  | ShTally t | ShTallySeg t => opad_toks (tc_lead t) ++ dcls_toks (tc_cls t)
+  | ShSdef s => opad_toks (sd_lead s) ++ dcls_toks (sd_cls s)
+  | ShMat m => opad_toks (m_lead m) ++ [("TEXT", "m"); ("NUMBER", show_nat (m_num m))]
+  | ShMT m => opad_toks (t_lead m) ++ [("TEXT", "mt"); ("NUMBER", show_nat (t_num m))]
+  | ShText x => text_toks x
+  | _ => []
   end.
 
 (* ---- dispatch of cell parameters to modifier classes (Cell._parse_keyword_modifiers) *)
@@ -418,13 +573,157 @@ Definition dispatch (by_substring : bool) (prefixes : list string) (key : string
 Definition expected_dispatch (prefixes : list string) (key : string) : list string :=
   filter (fun pfx => String.eqb pfx key) prefixes.
 
-(* ------------------------------------------------------------------ 3. wire entry *)
+(* ------------------------------------------------------------------ 3. the LR driver
+   sly.yacc.Parser.parse: the state stack starts as [0]; in a defaulted state (one whose only action is a
+   reduction) the reduction is taken without looking at the next token; otherwise the action of
+   (state, class of the next token or "$end") is looked up: a > 0 shifts to state a, a < 0 reduces by
+   production -a (pop its length, push goto[state below][lhs]), a = 0 accepts, no entry is a syntax error.
+   MCNP_Parser.error only records the error and MCNP_Parser.parse returns None whenever an error was
+   recorded, so the first missing entry is a rejection; SLY's error recovery is not modelled.
+   The driver keeps the grammar symbol beside each state and checks, at a reduction, that the popped symbols
+   are the right-hand side, and at acceptance that exactly the start symbol is left: in a table SLY built
+   this always holds (the checks never fire; LRTable is never returned) and it makes
+   "accepted => derivable in the production table" provable (Proofs: lr_sound). *)
+Record lr_table := mkLR {
+  lr_prods : list production; lr_start : string;
+  lr_terms : list string; lr_nonterms : list string;
+  lr_action : list (list (Z * Z)); lr_goto : list (list (Z * Z)); lr_dflt : list (Z * Z) }.
+
+Fixpoint index_of (s : string) (l : list string) (i : Z) : option Z :=
+  match l with
+  | [] => None
+  | x :: r => if String.eqb s x then Some i else index_of s r (i + 1)%Z
+  end.
+Fixpoint assocZ (k : Z) (l : list (Z * Z)) : option Z :=
+  match l with
+  | [] => None
+  | (a, b) :: r => if Z.eqb a k then Some b else assocZ k r
+  end.
+(* pop the symbols [rev_rhs] (last symbol of the right-hand side first) off the stack *)
+Fixpoint pop_check (rev_rhs : list string) (stack : list (Z * string)) : option (list (Z * string)) :=
+  match rev_rhs with
+  | [] => Some stack
+  | x :: r => match stack with
+              | (_, y) :: below => if String.eqb x y then pop_check r below else None
+              | [] => None
+              end
+  end.
+
+Inductive lr_result :=
+| LRAccept
+| LRReject (pos : nat) (state : Z) (tok : string)
+| LRFuel
+| LRTable (why : string).
+
+Definition lr_lookup (T : lr_table) (st : Z) (la : string) : option Z :=
+  match assocZ st (lr_dflt T) with
+  | Some a => Some a
+  | None => match index_of la (lr_terms T) 0%Z with
+            | Some ti => assocZ ti (nth (Z.to_nat st) (lr_action T) [])
+            | None => None
+            end
+  end.
+
+Definition top_state (stack : list (Z * string)) : Z :=
+  match stack with [] => 0%Z | (s, _) :: _ => s end.
+
+(* [stack]: the entries pushed above SLY's bottom entry (state 0, "$end"), top first *)
+Fixpoint lr_loop (T : lr_table) (fuel : nat) (stack : list (Z * string)) (input : list string) (pos : nat)
+  : lr_result :=
+  match fuel with
+  | O => LRFuel
+  | S f =>
+    let st := top_state stack in
+    let la := match input with [] => "$end" | t :: _ => t end in
+    match lr_lookup T st la with
+    | None => LRReject pos st la
+    | Some a =>
+      if (0 <? a)%Z then
+        match input with
+        | [] => LRTable "shift of $end"
+        | t :: rest => if is_token t then lr_loop T f ((a, t) :: stack) rest (S pos)
+                       else LRReject pos st la
+        end
+      else if (a <? 0)%Z then
+        match nth_error (lr_prods T) (Z.to_nat (- a) - 1) with
+        | None => LRTable "no such production"
+        | Some (lhs, rhs) =>
+          match pop_check (rev rhs) stack with
+          | None => LRTable "the stack does not hold the right-hand side"
+          | Some below =>
+            match index_of lhs (lr_nonterms T) 0%Z with
+            | None => LRTable "unknown nonterminal"
+            | Some ni =>
+              match assocZ ni (nth (Z.to_nat (top_state below)) (lr_goto T) []) with
+              | None => LRTable "no goto"
+              | Some g => lr_loop T f ((g, lhs) :: below) input pos
+              end
+            end
+          end
+        end
+      else
+        match stack, input with
+        | [(_, s)], [] => if String.eqb s (lr_start T) then LRAccept else LRTable "accept with a wrong stack"
+        | _, _ => LRTable "accept with a wrong stack"
+        end
+    end
+  end.
+
+Definition lr_fuel (ts : list string) : nat := 64 * (List.length ts + 4).
+Definition lr_run (T : lr_table) (ts : list string) : lr_result := lr_loop T (lr_fuel ts) [] ts 0.
+
+Definition lr_cell := mkLR Gen.Grammar.cell_productions Gen.Grammar.cell_start
+  Gen.LRTables.cell_lr_terminals Gen.LRTables.cell_lr_nonterminals
+  Gen.LRTables.cell_lr_action Gen.LRTables.cell_lr_goto Gen.LRTables.cell_lr_defaulted.
+Definition lr_surface := mkLR Gen.Grammar.surface_productions Gen.Grammar.surface_start
+  Gen.LRTables.surface_lr_terminals Gen.LRTables.surface_lr_nonterminals
+  Gen.LRTables.surface_lr_action Gen.LRTables.surface_lr_goto Gen.LRTables.surface_lr_defaulted.
+Definition lr_data := mkLR Gen.Grammar.data_productions Gen.Grammar.data_start
+  Gen.LRTables.data_lr_terminals Gen.LRTables.data_lr_nonterminals
+  Gen.LRTables.data_lr_action Gen.LRTables.data_lr_goto Gen.LRTables.data_lr_defaulted.
+Definition lr_classifier := mkLR Gen.Grammar.classifier_productions Gen.Grammar.classifier_start
+  Gen.LRTables.classifier_lr_terminals Gen.LRTables.classifier_lr_nonterminals
+  Gen.LRTables.classifier_lr_action Gen.LRTables.classifier_lr_goto Gen.LRTables.classifier_lr_defaulted.
+Definition lr_param_only := mkLR Gen.Grammar.param_only_productions Gen.Grammar.param_only_start
+  Gen.LRTables.param_only_lr_terminals Gen.LRTables.param_only_lr_nonterminals
+  Gen.LRTables.param_only_lr_action Gen.LRTables.param_only_lr_goto Gen.LRTables.param_only_lr_defaulted.
+Definition lr_material := mkLR Gen.Grammar.material_productions Gen.Grammar.material_start
+  Gen.LRTables.material_lr_terminals Gen.LRTables.material_lr_nonterminals
+  Gen.LRTables.material_lr_action Gen.LRTables.material_lr_goto Gen.LRTables.material_lr_defaulted.
+Definition lr_thermal := mkLR Gen.Grammar.thermal_productions Gen.Grammar.thermal_start
+  Gen.LRTables.thermal_lr_terminals Gen.LRTables.thermal_lr_nonterminals
+  Gen.LRTables.thermal_lr_action Gen.LRTables.thermal_lr_goto Gen.LRTables.thermal_lr_defaulted.
+Definition lr_tally := mkLR Gen.Grammar.tally_productions Gen.Grammar.tally_start
+  Gen.LRTables.tally_lr_terminals Gen.LRTables.tally_lr_nonterminals
+  Gen.LRTables.tally_lr_action Gen.LRTables.tally_lr_goto Gen.LRTables.tally_lr_defaulted.
+Definition lr_tally_seg := mkLR Gen.Grammar.tally_seg_productions Gen.Grammar.tally_seg_start
+  Gen.LRTables.tally_seg_lr_terminals Gen.LRTables.tally_seg_lr_nonterminals
+  Gen.LRTables.tally_seg_lr_action Gen.LRTables.tally_seg_lr_goto Gen.LRTables.tally_seg_lr_defaulted.
+
+Definition lr_by_name (n : string) : option lr_table :=
+  if String.eqb n "cell" then Some lr_cell else if String.eqb n "surface" then Some lr_surface
+  else if String.eqb n "data" then Some lr_data else if String.eqb n "classifier" then Some lr_classifier
+  else if String.eqb n "param_only" then Some lr_param_only else if String.eqb n "material" then Some lr_material
+  else if String.eqb n "thermal" then Some lr_thermal else if String.eqb n "tally" then Some lr_tally
+  else if String.eqb n "tally_seg" then Some lr_tally_seg else None.
+(* the parser MontePy uses for a card of this shape (Cell._parser, Surface._parser, the _parser of the data
+   classes, DataInput._load_correct_parser) *)
+Definition parser_of (sh : shape) : string :=
+  match sh with
+  | ShCell _ => "cell" | ShSurf _ => "surface" | ShData _ => "data" | ShMat _ => "material"
+  | ShMT _ => "thermal" | ShTally _ => "tally" | ShTallySeg _ => "tally_seg" | ShSdef _ => "param_only"
+  | ShText _ => "data"
+  end.
+
+(* ------------------------------------------------------------------ 4. wire entry *)
 Inductive val :=
 | VR (r : real) | VP (p : pad) | VOP (p : option pad) | VF (f : fact) | VT (t : term) | VE (e : expr)
-| VI (i : nitem) | VL (l : nlist) | VOL (l : option nlist) | VC (c : cvseq) | VSep (s : sepshape)
+| VI (i : nitem) | VL (l : nlist) | VC (c : cvseq) | VSep (s : sepshape)
 | VCP (c : cparam) | VCPS (l : list cparam) | VM (m : matspec) | VPtr (p : option (real * pad))
 | VKw (k : option (string * pad)) | VZ (z : zfrac) | VZS (l : list zfrac) | VMP (m : mparam)
 | VMPS (l : list mparam) | VLaw (l : string * option pad) | VLaws (l : list (string * option pad))
+| VPT (p : ptok) | VPTS (l : list ptok) | VDD (d : ddata) | VDP (p : dparam) | VDPS (l : list dparam)
+| VTI (t : titem) | VTIS (l : list titem) | VSV (v : sval) | VSP (s : sparam) | VSPS (l : list sparam)
 | VShape (s : shape).
 
 Definition parse_sign (s : string) : option sign :=
@@ -440,6 +739,8 @@ Fixpoint parse_digits (s : string) : option (list nat) :=
   end.
 Definition parse_onat (s : string) : option (option nat) :=
   if String.eqb s "-" then Some None else option_map Some (parse_nat s).
+Definition parse_ostr (s : string) : option string :=
+  if String.eqb s "-" then None else Some (hex_decode s).
 Definition parse_strs (s : string) : list string :=
   if String.eqb s "-" then [] else map hex_decode (split_on ","%char s).
 Definition parse_dparts (s : string) : list (bool * string) :=
@@ -447,6 +748,13 @@ Definition parse_dparts (s : string) : list (bool * string) :=
                 | String "!"%char r => (true, hex_decode r)
                 | _ => (false, hex_decode w)
                 end) (if String.eqb s "-" then [] else split_on ","%char s).
+(* comment lines: "indent.hexbody" or "indent.-" (a bare c), comma separated *)
+Definition parse_cline (w : string) : option cline :=
+  match split_on "."%char w with
+  | [i; b] => option_map (fun k => (k, parse_ostr b)) (parse_nat i)
+  | _ => None
+  end.
+Definition parse_clines (s : string) : option (list cline) := parse_list parse_cline s.
 
 (* r:S:INT:FRAC|-:MARK:S:EXP *)
 Definition parse_real (f : list string) : option real :=
@@ -468,6 +776,9 @@ Definition parse_real (f : list string) : option real :=
   | _ => None
   end.
 
+Definition mk_dcls (md pfx n parts : string) : option dcls :=
+  option_map (fun k => mkDcls (parse_ostr md) (hex_decode pfx) k (parse_dparts parts)) (parse_onat n).
+
 Definition step (st : option (list val)) (w : string) : option (list val) :=
   match st with
   | None => None
@@ -476,13 +787,14 @@ Definition step (st : option (list val)) (w : string) : option (list val) :=
     match f, stack with
     | "r" :: rest, _ => option_map (fun r => VR r :: stack) (parse_real rest)
     | ["sp"; n], _ => option_map (fun k => VP (PBlank k) :: stack) (parse_nat n)
+    | ["tab"; n], _ => option_map (fun k => VP (PTab k) :: stack) (parse_nat n)
     | ["br"; n; m], _ => match parse_nat n, parse_nat m with
                          | Some a, Some b => Some (VP (PBreak a b) :: stack) | _, _ => None end
     | ["dl"; n; t; m], _ => match parse_nat n, parse_nat m with
                             | Some a, Some b => Some (VP (PDollar a (hex_decode t) b) :: stack) | _, _ => None end
     | ["de"; n; t], _ => option_map (fun a => VP (PDollarEnd a (hex_decode t)) :: stack) (parse_nat n)
-    | ["cm"; n; m; cs], _ => match parse_nat n, parse_nat m with
-                             | Some a, Some b => Some (VP (PComment a (parse_strs cs) b) :: stack) | _, _ => None end
+    | ["cm"; n; m; cs], _ => match parse_nat n, parse_nat m, parse_clines cs with
+                             | Some a, Some b, Some l => Some (VP (PComment a l b) :: stack) | _, _, _ => None end
     | ["am"; n; m], _ => match parse_nat n, parse_nat m with
                          | Some a, Some b => Some (VP (PAmp a b) :: stack) | _, _ => None end
     | ["some"], VP p :: s => Some (VOP (Some p) :: s)
@@ -498,18 +810,16 @@ Definition step (st : option (list val)) (w : string) : option (list val) :=
     | ["num"], VR r :: s => Some (VI (NNum r) :: s)
     | ["j"; n], _ => option_map (fun k => VI (NJump k) :: stack) (parse_onat n)
     | ["rep"; n], _ => option_map (fun k => VI (NRepeat k) :: stack) (parse_onat n)
-    | ["mul"; n], _ => option_map (fun k => VI (NMul k) :: stack) (parse_nat n)
+    | ["mul"], VR x :: s => Some (VI (NMul x) :: s)
     | ["int"; n], VR r :: VP p :: s => option_map (fun k => VI (NInterp k p r) :: s) (parse_onat n)
     | ["log"; n], VR r :: VP p :: s => option_map (fun k => VI (NLog k p r) :: s) (parse_onat n)
     | ["nl1"], VOP p :: VI i :: s => Some (VL (NLOne i p) :: s)
     | ["nls"], VOP p :: VI i :: VL l :: s => Some (VL (NLSnoc l i p) :: s)
-    | ["somel"], VL l :: s => Some (VOL (Some l) :: s)
-    | ["nol"], _ => Some (VOL None :: stack)
     | ["cvl"], VL l :: s => Some (VC (CVList l) :: s)
     | ["cvr"], VOP p :: VR b :: VC c :: s => Some (VC (CVRange c b p) :: s)
     | ["cvn"], VOP p :: VI i :: VC c :: s => Some (VC (CVNum c i p) :: s)
-    | ["cvg"], VOP p :: VL inner :: VC c :: s => Some (VC (CVGroup c inner p) :: s)
-    | ["cvp"], VOP p :: VL inner :: s => Some (VC (CVParen inner p) :: s)
+    | ["cvg"], VOP p :: VL inner :: VOP pl :: VC c :: s => Some (VC (CVGroup c pl inner p) :: s)
+    | ["cvp"], VOP p :: VL inner :: VOP pl :: s => Some (VC (CVParen pl inner p) :: s)
     | ["seppad"], VP p :: s => Some (VSep (SepPad p) :: s)
     | ["sepeq"], VOP pr :: VOP pl :: s => Some (VSep (SepEq pl pr) :: s)
     | ["cp"; star; key; n; parts], VC v :: VSep sp :: s =>
@@ -528,12 +838,38 @@ Definition step (st : option (list val)) (w : string) : option (list val) :=
         Some (VShape (ShSurf (mkSurf lead m n p1 ptr (hex_decode mn) p2 l)) :: s)
     | ["kw"; k], VP p :: s => Some (VKw (Some (hex_decode k, p)) :: s)
     | ["nokw"], _ => Some (VKw None :: stack)
-    | ["data"; star; pfx; pc; n; parts], VOL l :: VKw k :: VOP p :: VOP lead :: s =>
-        let c := if String.eqb pc "K" then PCKeyword else if String.eqb pc "P" then PCParticle else PCText in
-        option_map (fun k' => VShape (ShData (mkData lead
-                       (mkDcls (String.eqb star "1") (hex_decode pfx) c k' (parse_dparts parts)) p k l)) :: s)
-                   (parse_onat n)
-    | ["zaid"; z], VOP tr :: VR fr :: VOP p :: s => Some (VZ (mkZ (hex_decode z) p fr tr) :: s)
+    | ["pt"; spc; p], VOP pd :: s => Some (VPT (String.eqb spc "1", hex_decode p, pd) :: s)
+    | ["pts0"], _ => Some (VPTS [] :: stack)
+    | ["ptsadd"], VPT p :: VPTS l :: s => Some (VPTS (l ++ [p]) :: s)
+    | ["dnone"], _ => Some (VDD DNone :: stack)
+    | ["dnums"], VL l :: s => Some (VDD (DNums l) :: s)
+    | ["dparts"], VPTS ps :: VPT p :: s => Some (VDD (DParts p ps) :: s)
+    | ["dopt"; o], VL l :: VP p :: s => Some (VDD (DOptNums (hex_decode o) p l) :: s)
+    | ["dp"; k], VL v :: VSep sp :: s => Some (VDP (mkDParam (hex_decode k) sp v) :: s)
+    | ["dps0"], _ => Some (VDPS [] :: stack)
+    | ["dpsadd"], VDP p :: VDPS l :: s => Some (VDPS (l ++ [p]) :: s)
+    | ["data"; md; pfx; n; parts], VDPS ps :: VDD dd :: VKw k :: VOP p :: VOP lead :: s =>
+        option_map (fun c => VShape (ShData (mkData lead c p k dd ps)) :: s) (mk_dcls md pfx n parts)
+    | ["tin"], VL l :: s => Some (VTI (TINums l) :: s)
+    | ["tig"], VOP pr :: VL l :: VOP pl :: s => Some (VTI (TIGroup pl l pr) :: s)
+    | ["tis0"], _ => Some (VTIS [] :: stack)
+    | ["tisadd"], VTI t :: VTIS l :: s => Some (VTIS (l ++ [t]) :: s)
+    | ["tally"; seg; md; pfx; n; parts; en], VOP ep :: VTIS rest :: VTI first :: VOP p :: VOP lead :: s =>
+        option_map (fun c =>
+          let t := mkTally lead c p first rest (option_map (fun e => (e, ep)) (parse_ostr en)) in
+          VShape (if String.eqb seg "1" then ShTallySeg t else ShTally t) :: s) (mk_dcls md pfx n parts)
+    | ["svn"], VL l :: s => Some (VSV (SVNums l) :: s)
+    | ["svp"], VPT p :: s => Some (VSV (SVPart p) :: s)
+    | ["svd"], VOP p :: VR n :: s => Some (VSV (SVDist n p) :: s)
+    | ["spar"; k], VSV v :: VSep sp :: s => Some (VSP (mkSParam (hex_decode k) sp v) :: s)
+    | ["sps0"], _ => Some (VSPS [] :: stack)
+    | ["spsadd"], VSP p :: VSPS l :: s => Some (VSPS (l ++ [p]) :: s)
+    | ["sdef"; md; pfx; n; parts], VSPS rest :: VSP first :: VP p :: VOP lead :: s =>
+        option_map (fun c => VShape (ShSdef (mkSdef lead c p first rest)) :: s) (mk_dcls md pfx n parts)
+    | ["text"; src; t], VOP lead :: s =>
+        Some (VShape (ShText (mkText lead (String.eqb src "1") (hex_decode t))) :: s)
+    | ["zaid"; lib; z], VOP tr :: VR fr :: VOP p :: s =>
+        Some (VZ (mkZ (String.eqb lib "1") (hex_decode z) p fr tr) :: s)
     | ["zs0"], _ => Some (VZS [] :: stack)
     | ["zsadd"], VZ z :: VZS l :: s => Some (VZS (l ++ [z]) :: s)
     | ["mpn"; k], VL v :: VSep sp :: s => Some (VMP (MPNum (hex_decode k) sp v) :: s)
@@ -561,23 +897,57 @@ Definition upchar (a : ascii) : ascii :=
   let n := nat_of_ascii a in if andb (Nat.leb 97 n) (Nat.leb n 122) then ascii_of_nat (n - 32) else a.
 Fixpoint upcase (s : string) : string :=
   match s with EmptyString => EmptyString | String a r => String (upchar a) (upcase r) end.
-(* either case: the class of a token does not depend on the case of its letters *)
-Definition gen_case (up : bool) (sh : shape) : list token :=
-  if up then map (fun t => (fst t, upcase (snd t))) (gen sh) else gen sh.
+(* either case, independently per token: token i is written in upper case when bit (i mod |mask|) of the
+   mask is set; the class of a token does not depend on the case of its letters *)
+Fixpoint apply_mask (mask cur : list bool) (ts : list token) : list token :=
+  match ts with
+  | [] => []
+  | t :: r =>
+      match cur with
+      | b :: cur' => (fst t, if b then upcase (snd t) else snd t) :: apply_mask mask cur' r
+      | [] => match mask with
+              | b :: m' => (fst t, if b then upcase (snd t) else snd t) :: apply_mask mask m' r
+              | [] => t :: r
+              end
+      end
+  end.
+Fixpoint parse_mask (s : string) : list bool :=
+  match s with EmptyString => [] | String a r => Ascii.eqb a "1"%char :: parse_mask r end.
+Definition gen_case (mask : list bool) (sh : shape) : list token := apply_mask mask mask (gen sh).
 
 Definition show_tok (t : token) : string := hex_encode (fst t) ++ "." ++ hex_encode (snd t).
+Definition show_lr (r : lr_result) : string :=
+  match r with
+  | LRAccept => "A"
+  | LRReject pos st tok => "R" ++ show_nat pos ++ "/" ++ show_Z st ++ "/" ++ hex_encode tok
+  | LRFuel => "F"
+  | LRTable why => "T" ++ hex_encode why
+  end.
+Definition lr_of (parser : string) (ts : list string) : string :=
+  match lr_by_name parser with Some T => show_lr (lr_run T ts) | None => "-" end.
 
-(* requests:  "gen U|L <postfix program>"  ->  "ok <0|1> tok tok ..."   (1 = the shape predicate holds)
-              "dispatch <0|1> <prefix,prefix,..> <key>" -> the claiming prefixes *)
+(* requests:
+     "gen <mask> <postfix program>" -> "ok <0|1> <parser> <lr> <lr of the classifier | -> tok tok ..."
+        (1 = the shape predicate holds; lr = the verdict of the LR driver of the card's parser on the classes
+         of the rendered tokens: A accept, R<pos>/<state>/<class> reject, F fuel, T<why> inconsistent table)
+     "lr <parser> <hexclass,hexclass,...>" -> the verdict of that parser's LR driver
+     "dispatch <0|1> <prefix,prefix,..> <key>" -> the claiming prefixes
+     "wordclass <hexword>" -> the class ParticleLexer.TEXT gives the word *)
 Definition run_CoreGrammar (req : string) : string :=
   match words req with
   | "gen" :: c :: prog =>
       match parse_shape prog with
-      | Some sh => "ok " ++ (if shape_ok_b sh then "1" else "0") ++ " "
-                   ++ join " " (map show_tok (gen_case (String.eqb c "U") sh))
+      | Some sh =>
+          let ts := gen sh in
+          "ok " ++ (if shape_ok_b sh then "1" else "0") ++ " " ++ parser_of sh ++ " "
+          ++ lr_of (parser_of sh) (classes ts) ++ " "
+          ++ (match classifier_toks sh with [] => "-" | ct => lr_of "classifier" (classes ct) end) ++ " "
+          ++ join " " (map show_tok (apply_mask (parse_mask c) (parse_mask c) ts))
       | None => "error:shape"
       end
+  | ["lr"; p; cs] => lr_of p (parse_strs cs)
   | ["dispatch"; m; pfx; key] =>
       show_list hex_encode (dispatch (String.eqb m "1") (parse_strs pfx) (hex_decode key))
+  | ["wordclass"; w] => word_class (hex_decode w)
   | _ => "error:request"
   end.
